@@ -215,7 +215,7 @@ def posify_index(shape, ind):
         if start < 0:
             start += shape
 
-        if not (0 > stop >= step) and stop < 0:
+        if stop < 0:
             stop += shape
 
         return slice(start, stop, ind.step)
@@ -296,6 +296,8 @@ def replace_none(idx, dim):
             start = dim - 1
 
         if stop is None:
-            stop = -1
+            # one before index 0 once `posify_index` has added `dim`;
+            # an explicit negative stop must stay distinguishable from this.
+            stop = -dim - 1
 
     return slice(start, stop, step)
